@@ -282,6 +282,23 @@ def norm(node) -> str:
     return " ".join(ast.unparse(node).split())
 
 
+def clone(node):
+    """deep copy of an AST subtree that does not follow the `_parent` back-links
+    (copy.deepcopy would copy the whole module through them)"""
+    if isinstance(node, ast.AST):
+        new = type(node).__new__(type(node))
+        for f in node._fields:
+            if hasattr(node, f):
+                setattr(new, f, clone(getattr(node, f)))
+        for a in node._attributes:
+            if hasattr(node, a):
+                setattr(new, a, getattr(node, a))
+        return new
+    if isinstance(node, list):
+        return [clone(x) for x in node]
+    return node
+
+
 def parent(node):
     return getattr(node, "_parent", None)
 
